@@ -87,6 +87,13 @@ Definition copy_actions_d (dangling : bool) (fc : fin_cfg) (src dst : rel) (e : 
   then ([AOpenRO (KSrc src); AStat (KSrc src); AStat (KDst dst)], false)
   else copy_actions fc src dst e.
 
+(* ... and an existing destination entry that is a DIRECTORY (itself, not a link to one) is refused as well: with backups
+   enabled the whole directory would otherwise be renamed away to make room for the file (repair in round 4) *)
+Definition copy_actions_dd (dangling dst_is_dir : bool) (fc : fin_cfg) (src dst : rel) (e : copy_env) : list sysact * bool :=
+  if ce_dst_exists e && negb (ce_same_file e) && dst_is_dir
+  then ([AOpenRO (KSrc src); AStat (KSrc src); AStat (KDst dst); AStat (KDst dst)], false)
+  else copy_actions_d dangling fc src dst e.
+
 (* the keys an operation on target `dst` owns *)
 Definition owned (dst : rel) (k : key) : Prop :=
   match k with KDst r => r = dst | KBak r _ => r = dst | KSrc _ => False end.
@@ -136,11 +143,12 @@ Definition known_class_04 (a : sysact) : bool :=
 
 (* ---- the documented step order of the three functions whose CALL ORDER the translator extracts
    (codes: 20 open source, 21 fstat source, 22 probe destination, 23 same-file check, 24 backup decision,
-   26 lstat of a destination the probe called absent, 27 / 28 take / release the backup-step lock (the scan for a backup
+   26 lstat of the destination (of one the probe called absent: a dangling link is refused; of an existing one: 29 a
+   directory is refused — a file never replaces a directory, with or without backups), 27 / 28 take / release the backup-step lock (the scan for a backup
    number, the rename of the old file and the create of the new one are ONE step with respect to the other workers), 25 backup name (directory scan), 1 rename, 2 create+truncate, 3 ftruncate, 4 clone attempt,
    30 sparseness test, 31 sparse walk, 32 plain loop, 40 CopyHandle::new, 41 Arc::new, 42 extent map,
    43 merge, 44 queue a range, 45 queue the whole file, 97 closure, 98 return) ---- *)
-Definition copy_new_steps : list N := [20; 21; 22; 23; 98; 26; 98; 27; 97; 24; 25; 1; 2; 28; 3].
+Definition copy_new_steps : list N := [20; 21; 22; 23; 98; 26; 98; 26; 29; 98; 27; 97; 24; 25; 1; 2; 28; 3].
 Definition copy_file_steps : list N := [4; 98; 30; 31; 32].
 Definition queue_file_blocks_steps : list N := [40; 4; 98; 41; 97; 30; 42; 43; 44; 45; 45].
 
